@@ -135,5 +135,14 @@ def extensions : List CmOp → List Res
   | .extend io _ :: ops => io ++ extensions ops
   | _ :: ops => extensions ops
 
+/-- Two managers of one process (two platforms built from the same board `_io` list): an interleaved history of
+    calls tagged with the instance they are made on (`false` = first, `true` = second).  `ConstraintManager.__init__`
+    copies the io list (`list(io)`), so the instances share nothing. -/
+def run2 (a b : Cm) (ops : List (Bool × CmOp)) : Cm × Cm :=
+  ops.foldl (fun s t => if t.1 then (s.1, (s.2.apply t.2).1) else ((s.1.apply t.2).1, s.2)) (a, b)
+
+/-- The calls of a tagged history that were made on one instance. -/
+def callsOn (i : Bool) (ops : List (Bool × CmOp)) : List CmOp := (ops.filter (·.1 == i)).map (·.2)
+
 end Cm
 end Litex.Soc
